@@ -25,7 +25,8 @@ reset), so the signed ROOT is the root the returned PATH recomputes; (7) add_err
 Bernoulli ratio is (fault_percentage, 100); new_deliberately_invalid is only called from grease.
 """
 NOT_DECIDED = ("hash/signature values; number of PATH elements = depth of the batch (loop-count fact); the share of faulty "
-               "replies (statistical); that a greased reply fails outright for every verifier")
+               "replies as a number (statistical) - decided is only that the Bernoulli ratio is p/100 and that every transformation the injector can pick is one of the "
+               "two known invalidating ones (random SIG, random tag order); that a greased reply fails outright for every verifier")
 TRUSTED = ["ring digest::Context (SHA-512, 64-byte output)", "ed25519-dalek Signer::sign", "byteorder WriteBytesExt",
            "rand Bernoulli::from_ratio(n, d) fires with probability n/d"]
 
